@@ -21,14 +21,17 @@ import (
 func cfgA() *vlib.Config {
 	return &vlib.Config{Default: 1, Sets: []*vlib.ParamSet{
 		{ID: 1, Alg: vlib.AlgArgon, Time: 1, Memory: 4096, Threads: 1, Length: 16}, // a few ms per hash: the dispatcher is busy under load and its queues are not empty
-		{ID: 2, Alg: vlib.AlgScrypt, Cost: 2, HmacKey: []byte("0123456789abcdef0123456789abcdef")}}}
+		{ID: 2, Alg: vlib.AlgScrypt, Cost: 2, HmacKey: []byte("0123456789abcdef0123456789abcdef")},
+		// id 5 / 6: same key and cost in both configurations, only r and p differ (explicit in A, defaults in B)
+		{ID: 5, Alg: vlib.AlgScrypt, Cost: 3, R: 2, P: 2, HmacKey: []byte("55555555555555555555555555555555")}}}
 }
 
 func cfgB() *vlib.Config {
 	return &vlib.Config{Default: 4, Sets: []*vlib.ParamSet{
 		// id 2 exists in both configurations with different parameters: a reload redefines it
 		{ID: 2, Alg: vlib.AlgScrypt, Cost: 10, HmacKey: []byte("fedcba9876543210fedcba9876543210")},
-		{ID: 4, Alg: vlib.AlgArgon, Time: 2, Memory: 16, Threads: 1, Length: 24}}}
+		{ID: 4, Alg: vlib.AlgArgon, Time: 2, Memory: 16, Threads: 1, Length: 24},
+		{ID: 6, Alg: vlib.AlgScrypt, Cost: 3, HmacKey: []byte("55555555555555555555555555555555")}}}
 }
 
 type reloadStep struct {
@@ -74,6 +77,9 @@ func TestC18Reload(t *testing.T) {
 			writeUser(w.base, w.cfg, seedUser{Name: w.user, PW: w.pw, PID: w.cfg.Sets[0].ID})
 			writeUser(w.base, w.cfg, seedUser{Name: "carl", PW: "carl-0", PID: w.cfg.Sets[0].ID})
 		}
+		// a user whose record uses the scrypt set that differs from the other configuration's only in r / p
+		writeUser(wa.base, cfgA(), seedUser{Name: "rita", PW: "rita-pw", PID: 5})
+		writeUser(wb.base, cfgB(), seedUser{Name: "rita", PW: "rita-pw", PID: 6})
 		// in each directory one record written under a parameter set that only the *other* configuration defines: whatever the agent
 		// serves, and whatever it served before, this record is unsupported (a set retired by a reload is gone)
 		writeUser(wa.base, cfgB(), seedUser{Name: "olga", PW: "olga-pw", PID: 4})
@@ -123,6 +129,9 @@ func TestC18Reload(t *testing.T) {
 			}
 			if okOlga, e5 := a.saslAuth("olga", "olga-pw", 0, 0); e5 != nil || okOlga {
 				t.Fatalf("VIOLATION C18: %s (configuration %s) a record under a parameter set that this configuration does not define authenticates (err=%v): sets of an earlier configuration are still in use\n%s", when, w.name, e5, tail(a.log(), 1500))
+			}
+			if okRita, e6 := a.saslAuth("rita", "rita-pw", 0, 0); e6 != nil || !okRita {
+				t.Fatalf("VIOLATION C18: %s (configuration %s) a user whose scrypt set has the same key and cost as a set of the other configuration, but other r / p, is refused with the right password (err=%v)\n%s", when, w.name, e6, tail(a.log(), 1500))
 			}
 			if !okW || okO || !okRootW || okRootO {
 				t.Fatalf("VIOLATION C18: %s the agent should serve configuration %s completely, but: %s@%s=%v %s@%s=%v root/%s=%v root/%s=%v\n%s",
